@@ -268,8 +268,11 @@ def d4_isolation(facts, rep):
     for fn in facts.get(R1 + 'task_stream::look_specific'):
         e = iso_ok_edges(fn)
         rets = [(p, s, nd) for p, s, nd in fn.stmt_elems(('return',)) if 'sub' in nd and not fn.n(fn.strip(nd['sub'])).get('null')]
-        ok = bool(e) and bool(rets) and all(dominated_by_edges(fn, p, e)[0] for p, _, _ in rets)
-        rep.ob('D4', 'K4', fn, 'the critical stream hands out only tasks of the requested isolation', ok, 'look_specific returns a task of another isolation',
+        # resume tasks carry no tag and are exempt from isolation everywhere (the dispatch loop asserts it): the only other way to accept
+        from rules.C20 import resume_exempt_edges
+        ok = bool(e) and bool(rets) and all(dominated_by_edges(fn, p, e | resume_exempt_edges(fn))[0] for p, _, _ in rets)
+        rep.ob('D4', 'K4', fn, 'the critical stream hands out only tasks of the requested isolation (or resume tasks, which are exempt)', ok,
+               'look_specific returns a task of another isolation',
                key_extra=fn.q[-20:])
     for fn in facts.get(R1 + 'task_dispatcher::receive_or_steal_task'):
         defs = Defs(fn)
